@@ -12,7 +12,7 @@
         depend on the oracle either (for the [run_db_log] shape). *)
 From Coq Require Import Lia Permutation.
 From HP Require Import Base.Bytes Base.Utf8 Base.Num Model.Scanner Model.Parser Model.Syntax Model.Elements
-  Model.Dates Model.Tree Model.Writer Model.Reporters Model.Cli.
+  Model.Dates Model.Tree Model.Writer Model.Regex Model.Reporters Model.Cli.
 From HP Require Import Spec.ResolverSpec Spec.ComposeSpec.
 From HP Require Import Proofs.ParserBytes Proofs.ParserScan Proofs.ParserRoundtrip Proofs.ParserCorollaries
   Proofs.ParserConcat.
@@ -226,7 +226,7 @@ Section AssemblyCompose.
       by food (-g with -s is a period report), and a -f pattern inside the model *)
   Definition reg_is_perday (c : rconfig) : Prop :=
     match rc_single_element c with
-    | [] => rc_single_food c = [] \/ plain_pattern (rc_single_food c) = true
+    | [] => rc_single_food c = [] \/ parse_regex (rc_single_food c) <> ReUnmodelled
     | _ :: _ => rc_group_food c = false
     end.
 
